@@ -165,6 +165,8 @@ def fatal_class(err):
         return "stack-overflow"
     if re.search(r"concurrent map", head):
         return "concurrent-map-access"
+    if re.search(r"checkptr", head):
+        return "checkptr"
     return "memory-corruption"        # nameOff / typeOff out of range, SIGSEGV in the runtime, bad pointer in the heap ...
 
 
@@ -330,13 +332,28 @@ def _limit_as():
         pass
 
 
-def run_impl_frames(cases, max_crashes, max_hangs=8):
+def build_checkptr():
+    """a second executor compiled with -d=checkptr: unsafe pointer arithmetic that leaves its allocation (an index
+    beyond a slice that was not grown, a write before an array) is a fatal error instead of silent damage"""
+    hd = os.path.join(hv.V, "harness")
+    out = os.path.join(hv.HBIN, "hv-c04-cp")
+    cmd = ["go", "build", "-gcflags=all=-d=checkptr", "-tags", "verif", "-o", out]
+    if hv.ALT:
+        cmd.append("-modfile=" + os.path.join(hv.BUILD, "alt-" + hv.ALT, "go.mod"))
+    with hv.Lock("go" + hv.ALT):
+        rc, o, e = hv.sh(cmd + ["./cmd/c04"], cwd=hd, env=hv.GOENV, timeout=1800)
+    if rc != 0:
+        raise hv.EnvError("checkptr build of the c04 executor failed: " + e[-2000:])
+    return out
+
+
+def run_impl_frames(cases, max_crashes, max_hangs=8, exe_name="hv-c04"):
     """like run_harness_resilient, but keeps the /repo frames the executor's watchdog printed"""
     import subprocess
     obs_by_id, crashes = {}, {}
     hangs = 0
     todo = list(cases)
-    exe = os.path.join(hv.HBIN, "hv-c04")
+    exe = os.path.join(hv.HBIN, exe_name)
     while todo:
         inp = "".join(json.dumps(c, separators=(",", ":")) + "\n" for c in todo)
         try:
@@ -589,7 +606,8 @@ def generate(ctx, seeds):
     for s in seeds:
         b = bytes.fromhex(s["hex"])
         n = len(b)
-        for k in range(n):
+        ks = range(n) if (n <= 100 or not quick) else sorted(set(list(range(60)) + rng.sample(range(60, n), min(60, n - 60))))
+        for k in ks:
             g.add("truncate", s, b[:k])
         pos_all = list(range(n))
         if quick:
@@ -625,7 +643,10 @@ def generate(ctx, seeds):
     # (c) grammar-aware mutations of every count / length / index field
     for s in seeds:
         b = bytes.fromhex(s["hex"])
-        for (a, e) in count_fields(b):
+        cf = count_fields(b)
+        if quick and len(cf) > 12:
+            cf = rng.sample(cf, 12)
+        for (a, e) in cf:
             for v in VALUES(len(b)):
                 g.add("field", s, b[:a] + v.encode() + b[e:])
 
@@ -823,9 +844,27 @@ def run(ctx):
         obs.update(o1)
         crashes.update(c1)
     T["impl_isolated"] = round(time.time() - t0, 1); t0 = time.time()
-    ctx.note("phase_seconds", T)
     ctx.note("isolated_cases", {"model_predicted_fatal": len(alone), "executed_each_in_its_own_process": len(alone_run)})
     attribute_memory_kills(crashes)
+    # memory-safety pass: the valid streams (among them lists longer than any up-front reservation), the fixed
+    # corpus and a sample of the mutants once more through the checkptr executor
+    build_checkptr()
+    sample = [c for c in light if c["gen"] in ("valid", "fixed")]
+    rest_light = [c for c in light if c["gen"] not in ("valid", "fixed")]
+    ctx.rng.shuffle(rest_light)
+    sample += rest_light[:(3000 if ctx.tier == "quick" else 30000)]
+    cp_obs, cp_crashes = run_impl_frames(sample, 50, 4, exe_name="hv-c04-cp")
+    n_cp = 0
+    for c in sample:
+        cr = cp_crashes.get(c["id"])
+        if cr is not None and cr[1] != -1 and fatal_class(cr[2]) == "checkptr":
+            n_cp += 1
+            if c["id"] not in crashes:
+                crashes[c["id"]] = cr
+                obs.pop(c["id"], None)
+    ctx.note("checkptr_pass", {"cases": len(sample), "unsafe_pointer_faults": n_cp})
+    T["impl_checkptr"] = round(time.time() - t0, 1); t0 = time.time()
+    ctx.note("phase_seconds", T)
     ran = {c["id"] for c in light} | {c["id"] for c in chosen} | {c["id"] for c in alone_run}
 
     failing = {}      # key -> (len, case, what, model)
